@@ -83,6 +83,8 @@ def build_graph(spec):
                     n.descend_from_node(pn, imgs[(vm, "image1")] if plevel == "images" else vms[vm])
                 producers[(vm, st["name"])] = n
         for li, leaf in enumerate(spec["leaves"]):
+            if "only_workers" in leaf and wi not in leaf["only_workers"]:
+                continue        # a test this worker's restrictions exclude: its setup stays (as if selected itself)
             params = dict(leaf.get("params", {}))
             for vm, stname in leaf["gets"].items():
                 lvl = next(s for s in spec["states"][vm] if s["name"] == stname).get("level", "images")
@@ -266,6 +268,8 @@ class Run:
         self.cur = []
         self.monitor = []           # property monitors evaluated on the implementation's behaviour
         self.c01_detail = {}
+        self.c01_removed = {}
+        self.removal_log = []       # (removing worker, states) in the order of the removals
         self.max_sections = max_sections
         self.running = {}           # worker idx -> (node, pre)
         self.t = 0                  # logical clock: section counter
@@ -390,6 +394,19 @@ class Run:
                                for v in self.workers if v.id != worker.id and x in self.store.get(v.id, set())]
                     self.c01_detail[(w, ni, x)] = holders
                     self.monitor.append(("C01", f"state {x} available in none of {places}", w, ni))
+                    # C05, seen from the dependant: its state was removed (by a worker it was told to fetch from) before it ran
+                    for rw, rsts, reached in self.removal_log:
+                        if x in rsts and rw != worker.id and any(loc.split(":")[0] == rw for loc in locs):
+                            if worker.id not in reached:
+                                # the dependant's worker had not even reached the producer: it was not "involved" yet
+                                self.monitor.append(("C05", f"state removed before the worker of a dependant arrived at the producer", w, ni))
+                                self.c01_removed[(w, ni, x)] = "late"
+                                break
+                            self.c01_removed[(w, ni, x)] = "reached"
+                            cross = " in another swarm" if (next(v for v in self.workers if v.id == rw).swarm_id != worker.swarm_id
+                                                            and next(v for v in self.workers if v.id == rw).swarm_id != "localhost") else ""
+                            self.monitor.append(("C05", f"state removed by {rw} before its dependant on {worker.id} started" + cross, w, ni))
+                            break
 
     def monitor_unset(self, w, ni, sts):
         """C05: a removed state must have no running or pending dependant on the removing worker itself or on a
@@ -397,6 +414,14 @@ class Run:
         n = self.x.nodes[ni]
         worker = self.workers[w]
         removed = {o for o, s in sts}
+        # workers that had already picked (reached, possibly bounced off) a copy of the producer when it was removed
+        cls = {id(m) for m in [n] + list(n.bridged_nodes)}
+        reached = set()
+        for evs in self.events + [self.cur]:
+            for e in evs:
+                if e[0] == "pick" and e[3] is not None and 0 <= e[3] < len(self.x.nodes) and id(self.x.nodes[e[3]]) in cls:
+                    reached.add(self.workers[e[1]].id)
+        self.removal_log.append((worker.id, set(sts), reached))
         if n.params.get("unset_mode", "ri")[0] != "f" and not any(
                 o.object_typed_params(n.params).get("unset_mode", "ri")[0] == "f" for o in n.objects):
             self.monitor.append(("C05", "state removed although it is not marked for removal", w, ni))
